@@ -87,6 +87,11 @@ fn main() {
         }
         return;
     }
+    if family == "wsmsg" {
+        // aqv wsmsg <text> ...: each text sent on one connection to a fresh tracker, the reply (if any) printed
+        wsclient::probe_msgs(&args[2..]);
+        return;
+    }
     if family == "wsprobe" {
         wsclient::probe(args.get(2).and_then(|v| v.parse().ok()).unwrap_or(1000));
         return;
